@@ -29,18 +29,21 @@ EXPECTED_THOROUGH = [("SessionLife_asis.cfg", "NoOrphan"), ("SessionLife_asis_ca
 
 
 def _tlc(cfg, workers, timeout, wd):
-    return cfg, vlib.tlc_must_pass("SessionLife", cfg, wd, workers=workers, timeout=timeout)
+    r = vlib.tlc_must_pass("SessionLife", cfg, wd, workers=workers, timeout=timeout)
+    vlib.log("TLC %s: %d distinct, %d generated, %.0f s" % (cfg, r.distinct, r.generated, r.wall))
+    return cfg, r
 
 
 def _expected(cfg, inv, wd):
-    r = vlib.tlc("SessionLife", cfg, wd, workers=2, timeout=900)
+    r = vlib.tlc("SessionLife", cfg, wd, workers=3, timeout=3000)
     if r.violated != inv:
         raise vlib.Inconclusive("%s: expected a counter-example to %s, got violated=%s exit=%s" % (cfg, inv, r.violated, r.exit))
+    vlib.log("TLC %s: counter-example to %s as expected after %d distinct states, %.0f s" % (cfg, inv, r.distinct, r.wall))
     return cfg, inv, r
 
 
 def _wit(name, wd):
-    return vlib.witnesses("SessionLife", "SessionLife_wit.cfg", [name], wd, workers=1, timeout=900)[0]
+    return vlib.witnesses("SessionLife", "SessionLife_wit.cfg", [name], wd, workers=1, timeout=3000)[0]
 
 
 def run(tier, seed, replay=None):
